@@ -187,23 +187,36 @@ def check(ctx):
                 muts.append(f"{f.fq} L{n.lineno}")
     ctx.ob("R18.4", "the library never mutates `.points` arrays in place", not muts, detail=muts, where="repo", construct="in-place .points mutation",
            message=f"in-place vertex mutation at {muts}", consequence="orientation/closure invariants are bypassed")
-    # R18.5
+    # R18.5: truth table of the membership function (for one query point and 0..3 holes); falls back to the structural form
     f = D.methods["contains_points"]
-    m = [n for n in own_nodes(f.node) if isinstance(n, ast.BinOp) and isinstance(n.op, (ast.BitAnd, ast.BitOr))]
-    ok = False
-    if len(m) == 1 and isinstance(m[0].op, ast.BitAnd):
-        l, r = m[0].left, m[0].right
-        ok = norm(l) == "self.film.contains_points(points, radius=radius)" and isinstance(r, ast.UnaryOp) and isinstance(r.op, ast.Invert) \
-            and isinstance(r.operand, ast.Call) and norm(r.operand.func) == "np.logical_or.reduce" and len(r.operand.args) == 1 \
-            and isinstance(r.operand.args[0], ast.ListComp)
-        if ok:
-            lc = r.operand.args[0]
-            v = norm(lc.generators[0].target)
-            ok = len(lc.generators) == 1 and not lc.generators[0].ifs and norm(lc.generators[0].iter) == "self.holes" \
-                and rename_id(norm(lc.elt), v, "H") == "H.contains_points(points, radius=-radius)"
-    ctx.ob("R18.5", "mask == film.contains(points, +radius) & ~any(hole.contains(points, -radius))", ok, detail=[norm(x) for x in m],
-           where=f.fq, construct="Device.contains_points", loc=loc(f, f.node), message=f"membership mask is {[norm(x) for x in m]}",
-           consequence="points inside holes count as inside the device (or film points are excluded)")
+    from ..pointwise import NotPointwise, truth_table
+    try:
+        rows, uses = truth_table(f.node)
+        wrong = [(n, fi_, hs, r) for n, fi_, hs, r in rows if r != (fi_ and not any(hs))]
+        det = {"assignments": len(rows), "wrong": [f"{n} hole(s): in film={fi_}, in holes={hs} -> {r}" for n, fi_, hs, r in wrong[:4]],
+               "radius_signs": sorted(map(str, uses))}
+        radius_ok = uses <= {("film", "+"), ("hole", "-"), ("film", None), ("hole", None)} and (("film", "+") in uses) == (("hole", "-") in uses)
+        ctx.ob("R18.5", f"truth table over {len(rows)} assignments (0-3 holes): inside == in film and in no hole", not wrong, detail=det,
+               where=f.fq, construct="Device.contains_points truth table", loc=loc(f, f.node),
+               message=f"Device.contains_points is wrong for {len(wrong)} of {len(rows)} truth assignments, e.g. {det['wrong'][:2]}",
+               consequence="points inside a hole count as inside the device (or film points are excluded): probe points in holes are accepted, "
+                           "post-processing masks are wrong",
+               witness={"assignment": det["wrong"][:1]})
+        ctx.ob("R18.5", "the margin is passed with opposite signs to the film and to the holes", radius_ok, detail=det["radius_signs"], where=f.fq,
+               construct="Device.contains_points radius signs", loc=loc(f, f.node), message=f"radius signs used: {det['radius_signs']}",
+               consequence="the margin grows the holes together with the film: boundary conventions of film and holes disagree")
+    except NotPointwise as e:
+        m = [n for n in own_nodes(f.node) if isinstance(n, ast.BinOp) and isinstance(n.op, (ast.BitAnd, ast.BitOr))]
+        ok = False
+        if len(m) == 1 and isinstance(m[0].op, ast.BitAnd):
+            l, r = m[0].left, m[0].right
+            ok = norm(l) == "self.film.contains_points(points, radius=radius)" and isinstance(r, ast.UnaryOp) and isinstance(r.op, ast.Invert) \
+                and isinstance(r.operand, ast.Call) and norm(r.operand.func) == "np.logical_or.reduce" and len(r.operand.args) == 1 \
+                and isinstance(r.operand.args[0], ast.ListComp)
+        ctx.ob("R18.5", f"mask == film.contains(points, +radius) & ~any(hole.contains(points, -radius)) [structural; truth table not applicable: {e}]", ok,
+               detail=[norm(x) for x in m], where=f.fq, construct="Device.contains_points", loc=loc(f, f.node),
+               message=f"membership mask is {[norm(x) for x in m]} (and the function is outside the pointwise fragment: {e})",
+               consequence="points inside holes count as inside the device (or film points are excluded)")
     from ..effects import mesh_immutable
     mesh_immutable(ctx, "R18.6", 'the mesh is the one object a device shares with its copies: modifying it in place changes the other device, whose polygons stay where they were')
     from ..effects import fresh_results
